@@ -576,6 +576,42 @@ def rule_view(env, shared):
     return out
 
 
+def rule_leak_write(env, shared):
+    """LEAK.write: `ptr::write` / `p.write(v)` overwrites its destination without dropping what is there. It is used only on
+    memory that holds no live value: a fresh local MaybeUninit. A raw write into a re-used slot (a buffer, a field) leaks
+    the value the slot still owns."""
+    out = []
+    R, F = env.R, env.F
+    n = 0
+    for b in F.non_test_bodies():
+        sa = F.impl_self_adt(b)
+        world = None
+        for w in env.worlds():
+            if w["iter"] == sa or w["puller"] == sa:
+                world = w
+        for e in env.flat_events(b, sa, world, max_depth=0):
+            if e.kind != "call" or e.callee is None or e.callee.indirect:
+                continue
+            if e.callee.key not in ("std::ptr::mut_ptr::write", "std::ptr::write", "std::ptr::write_unaligned",
+                                    "std::ptr::mut_ptr::write_unaligned", "std::ptr::write_volatile"):
+                continue
+            n += 1
+            d = fmt(e.args[0]) if e.args else "?"
+            k = "LEAK.write|%s" % env.fname(b)
+            okk = "MaybeUninit::as_mut_ptr" in d and R.classify(e.args[0])[0] not in ("store", "cell")
+            if any(o.key == k and o.status == "viol" for o in out):
+                continue
+            out = [o for o in out if o.key != k]
+            out.append(Ob("LEAK.write", k, "ok" if okk else "viol", e.loc(),
+                          "raw write into a fresh local MaybeUninit" if okk else
+                          "raw write to %s: `write` does not drop the previous content of its destination; if the slot still "
+                          "holds a value (a buffer that is re-used, a chunk that was not consumed to its end) that value is "
+                          "never dropped" % d[:90], True))
+    if n == 0:
+        out.append(Ob("LEAK.write", "LEAK.write|none", "ok", "-", "no raw write in the crate"))
+    return out
+
+
 def rule_leak(env, shared):
     """LEAK: every ManuallyDrop field that owns heap memory is released on every path of Drop::drop; leak primitives are
     used only in the justified places (constructors wrapping the collection, the remainder split's re-wrap)."""
